@@ -176,8 +176,10 @@ def case_mibdump(idx, rng, tier, res):
         opts = [o for o in ('--rebuild', '--no-dependencies', '--ignore-errors', '--dry-run',
                             '--no-mib-writes', '--generate-mib-texts', '--no-python-compile')
                 if rng.random() < 0.22]
-        if fmt == 'json' and rng.random() < 0.25:
+        if fmt == 'json' and rng.random() < (0.5 if '--dry-run' in opts else 0.25):
             opts.append('--build-index')
+            if '--dry-run' in opts:
+                res.count('dryrun_with_build_index')
         if rng.random() < 0.1:
             opts.append('--debug=' + rng.choice(['all', 'compiler', 'reader,searcher,writer', 'parser,codegen,borrower']))
             res.count('runs_with_debug_logging')
@@ -221,7 +223,8 @@ def case_mibdump(idx, rng, tier, res):
                 '--mib-borrower=' + bor, '--mib-searcher=' + dst] + opts
         names = [alias[1] if alias and alias[0] == r else r for r in requested]
         before = faults.snapshot(dst)
-        watch = ('--dry-run' in opts or '--no-mib-writes' in opts) and '--build-index' not in opts
+        # the index document is the one thing --no-mib-writes still stores; a dry run stores nothing at all
+        watch = '--dry-run' in opts or ('--no-mib-writes' in opts and '--build-index' not in opts)
         if watch:
             with Inotify(dst) as ino:
                 rc, err, out = run_tool(MIBDUMP, args + names, home)
